@@ -754,8 +754,11 @@ func vpTreeSpec(tag, path string, depth int) {
 	case 0:
 		vpMkFile(path, vpNondetString(tag+".content", 1), 0o644)
 	case 1:
-		tgt := vpNondetStringFrom(tag+".target", 2, "ab/")
-		vpAssume(tgt != "" && tgt[0] != '/') // relative symlinks (absolute ones are warned about by please)
+		tgt := vpNondetStringFrom(tag+".target", vpBound("linklen"), "ab./")
+		vpAssume(tgt != "")
+		if vpBound("abs-links") == 0 || !strings.HasSuffix(tag, ".e") {
+			vpAssume(tgt[0] != '/') // relative symlinks only (absolute ones are warned about by please)
+		}
 		vpMkLink(path, tgt)
 	case 2:
 		vpMkDir(path)
